@@ -299,6 +299,15 @@ def random_model(rnd, multi=True):
         names.append(nm)
     rnd.shuffle(names)
     model = {"ports": names, "forms": []}
+    # a port whose name is the concatenation of two one-character port names (shipped zen3 has the
+    # ports '1', '2' and '12'): the port string "12" of a micro-op still means the ports 1 and 2
+    single = [i for i, nm in enumerate(names) if len(nm) == 1]
+    ambig = None
+    if n >= 3 and len(single) >= 2 and rnd.random() < 0.3:
+        i, j = rnd.sample(single, 2)
+        k = rnd.choice([q for q in range(n) if q not in (i, j)])
+        names[k] = names[i] + names[j]
+        ambig = [i + 1, j + 1]
 
     def pset():
         k = rnd.randint(1, n)
@@ -337,6 +346,12 @@ def random_model(rnd, multi=True):
         elif t < 0.14:
             fm["tp"] = 0.0
         model["forms"].append(fm)
+    if ambig:
+        rest = [q for q in range(1, n + 1) if q not in ambig]
+        us = [[rnd.choice([1, 1, 2, 3]), list(ambig)]]
+        if multi and rnd.random() < 0.4:
+            us.append([1, rnd.sample(rest, 1) + rnd.sample(ambig, 1)])
+        model["forms"][rnd.randrange(len(model["forms"]))] = {"alts": [us], "tp": 1.0, "lat": 1.0}
     if multi and rnd.random() < 0.5:
         # register forms whose memory variants are composed from the load / store defaults,
         # scaled by documented multipliers (as in the shipped zen1 model)
